@@ -424,7 +424,7 @@ T_Renew2(m) == IF "renew2" \notin Templates \/ 2 \notin Vers THEN {} ELSE
   {RenewTx(m, q[1], q[2], q[3]) : q \in Live2(m) \X SpendableSC(m) \X {y[1] : y \in FormRH}}
 T_Fnd(m) == IF "fnd" \notin Templates THEN {} ELSE
   {[EmptyTx(q[1]) EXCEPT !.sci = <<In(q[2])>>, !.sco = <<Out(m.sc[q[2]].val, m.sc[q[2]].addr)>>, !.fnd = q[3], !.tag = "fnd"] :
-     q \in Vers \X {y \in SpendableSC(m) : m.sc[y].addr \in {"F", "M"}} \X {"F", "M"}}
+     q \in {y \in Vers \X {z \in SpendableSC(m) : m.sc[z].addr \in {"F", "M"}} \X {"F", "M", "V"} : y[3] # "V" \/ y[1] = 2}}   \* (a v2 update to the void address waives the subsidy)
 
 On(m, k, S) == IF m.focus = "any" \/ m.focus = k THEN S ELSE {}
 T_Attest(m) == IF "attest" \notin Templates \/ 2 \notin Vers THEN {} ELSE
@@ -596,7 +596,7 @@ End ==
               extra == (IF split THEN (Id(MINER, child, 0, 0, 0) :> [val |-> Reward + ms.fees - 1, addr |-> "A", mat |-> child + MatDelay])
                                       ++ (Id(MINER, child, 0, 0, 1) :> [val |-> 1, addr |-> "A", mat |-> child + MatDelay])
                         ELSE (Id(MINER, child, 0, 0, 0) :> [val |-> Reward + ms.fees, addr |-> "A", mat |-> child + MatDelay]))
-                       ++ (IF Subsidy /\ ms.fnd.p # "V" THEN Id(FOUND, child, 0, 0, 0) :> [val |-> 0, addr |-> ms.fnd.p, mat |-> child + MatDelay] ELSE <<>>)
+                       ++ (IF Subsidy /\ fnd.p # "V" THEN Id(FOUND, child, 0, 0, 0) :> [val |-> 0, addr |-> fnd.p, mat |-> child + MatDelay] ELSE <<>>)   \* scheduled by the parent state: an address update in this very block does not redirect, waive or revive it
                        ++ ExpOuts(ms, exp)
               scAll == ms.sc ++ extra
           IN /\ undo' = <<Snapshot>> \o undo
